@@ -530,7 +530,7 @@ fn run_once_inner<T: Sc, F: Factory<T>>(sc: &Scenario, rep: &mut RunReport, samp
                         }
                     }
                     if let Some(k) = n_opt {
-                        let tail = slice(&log, st.ev_from + k, st.ev_to);
+                        let tail = slice(&log, st.ev_from + k, f.lib_ev_to.max(st.ev_from + k));
                         if f.with_stats && f.ok {
                             // Ok with statistics: they ran to completion and are the last
                             // calls of the operation (see c12.rs)
